@@ -1081,7 +1081,14 @@ func runStartAcceptance(c *Ctx, rule string) {
 			}
 		}
 		c.Check(zbad == "", rule, shortName(f), "an absent value is the zero value", p.pos(f.Pos()), "every return with a false flag hands back the zero value, and every flag is a constant", zbad+": identifiers that both say `no value` differ as map keys (two entries for one trip, tied in the sort)")
+		if rule == "TIDZ" {
+			// determinism only needs the key / comparator agreement, not the acceptance rule
+			continue
+		}
 		c.Check(bad == "", rule, shortName(f), "a value is dropped only when absent or not matching the pattern", p.pos(f.Pos()), "every path that answers `no value` took the nil test of the argument or of the pattern match, and nothing else", "a well-formed value is dropped by a further test: "+bad+" (a start time of 24:00:00 or later is valid and identifies another trip than the same id without start time)")
+	}
+	if rule == "TIDZ" {
+		return
 	}
 	// the texts accepted as start time / start date are exactly HH:MM:SS and YYYYMMDD (oracle: gtfs-realtime.proto)
 	for _, pr := range []struct{ spec, want, what string }{
